@@ -784,6 +784,48 @@ def rule_field_pairs(report, prog, res):
     report.floor('C11-R8', n, 14)
 
 
+def rule_agf_members(report, prog, rule='C11-R7'):
+    """What AggregatedFrame.decode refuses *before* it decodes a member is exactly a nested AGF: the statements between the length
+    test and the recursive decode() are folded by the checker for a member header of every PDU type (16 type codes x DSAP / SSAP
+    samples): type 0010b (AGF) is refused, every other type falls through to decode().  Aggregation stays transparent for every
+    PDU an LLC may aggregate, and the recursion stays bounded."""
+    from ..q import fold_block
+    f = prog.func(PDU + '.AggregatedFrame.decode')
+    loops = [l for l in walk_no_nested(f.node) if isinstance(l, ast.While)]
+    if len(loops) != 1:
+        raise AnalysisError('%s: AggregatedFrame.decode loop not found' % rule)
+    body = live(loops[0].body)
+    idx = [i for i, st in enumerate(body) if any(isinstance(c, ast.Call) and norm(c.func) == 'decode' for c in ast.walk(st))]
+    start = [i for i, st in enumerate(body) if isinstance(st, ast.If) and 'pdu_size' in norm(st.test) and 'size' in norm(st.test).replace('pdu_size', '')]
+    if not idx:
+        raise AnalysisError('%s: AggregatedFrame.decode: member decode call not found' % rule)
+    if not start:
+        # the length test itself is gone (reported by R3): fold what follows the read of the length field
+        start = [i for i, st in enumerate(body) if isinstance(st, ast.Try)] or [-1]
+    mid = [st for st in body[start[-1] + 1:idx[0]] if not (isinstance(st, ast.Assign) and 'pdu_size' in [norm(t) for t in st.targets])]
+    bad = []
+    n = 0
+    for ptype in range(16):
+        for dsap, ssap in ((0, 0), (1, 1), (32, 16), (63, 63)):
+            hdr = (dsap << 10) | (ptype << 6) | ssap
+            data = bytearray([0x00, 0x80, 0x00, 0x03, hdr >> 8, hdr & 255, 0x00])
+            env = {'data': data, 'offset': 2, 'size': 5, 'pdu_size': 3}
+            try:
+                r = fold_block(mid, env)
+            except NotConst as e:
+                bad.append('cannot fold the member checks (%s)' % e)
+                break
+            n += 1
+            refused = r[0] == 'raise'
+            if refused != (ptype == 2):
+                bad.append('member with PTYPE %s (DSAP %d, SSAP %d) is %s' % (format(ptype, '04b'), dsap, ssap,
+                                                                              'refused' if refused else 'decoded recursively'))
+        if bad and bad[-1].startswith('cannot'):
+            break
+    report.check(not bad, rule, key(f.qname, 'exactly a nested AGF is refused before the member is decoded'), f.loc(loops[0]),
+                 'AggregatedFrame.decode: %s' % '; '.join(bad[:3]), detail='%d member headers folded' % n)
+
+
 def _type_map(prog):
     m = prog.modules[PDU]
     for st in m.tree.body:
@@ -887,12 +929,21 @@ def run(report, prog, tier):
     rule_tlv_limits(report, prog, res)
     rule_field_pairs(report, prog, res)
     rule_recursion(report, prog, res)
+    rule_agf_members(report, prog)
     report.trusted += ['struct.calcsize / struct.pack semantics of the checker interpreter',
                        'induction: len(x.encode()) == len(x) for aggregated sub-PDUs (each class is itself an R1 obligation)']
     report.assumptions += ['field domains: RW 0..15, MIU 128..2175, SAP 0..63, N(S)/N(R) 0..15']
 
 
 MUTANTS = [
+    ('agf-member-type-test-two-bits', PDU, """                ptype = (struct.unpack_from('!H', data, offset+2)[0] >> 6) & 15
+                if ptype == 0b0010:""", """                ptype = (struct.unpack_from('!H', data, offset+2)[0] >> 6) & 3
+                if ptype == 0b10:""", 'C11-R7'),
+    ('agf-member-type-test-dropped', PDU, """            if pdu_size >= 2:
+                ptype = (struct.unpack_from('!H', data, offset+2)[0] >> 6) & 15
+                if ptype == 0b0010:
+                    raise DecodeError("AGF PDU must not contain an AGF PDU")
+""", "", 'C11-R7'),
     ('connect-sn-normalised-on-decode', PDU, "                connect_pdu.sn = V\n", "                connect_pdu.sn = V.rstrip(b'\\0')\n", 'C11-R8'),
     ('dps-rn-truncated-on-encode', PDU, "data += Parameter.encode(Parameter.RN, self.rn)", "data += Parameter.encode(Parameter.RN, self.rn[:8])", 'C11-R8'),
     ('cc-miu-offset-one-sided', PDU, "                cc_pdu.miu = 128 + V", "                cc_pdu.miu = 127 + V", 'C11-R8'),
